@@ -16,7 +16,7 @@ from native.util import bound, REPLAY_HEAD
 
 MODES = ('symmetric', 'edge', 'wrap', 'const')
 SIDES = ('xmin_bc', 'xmax_bc', 'ymin_bc', 'ymax_bc', 'zmin_bc', 'zmax_bc')
-CONSTS = (0.0, 1.0, 0.25, -0.5, 2, 0.75)   # a different constant on every side (one of them a Python int)
+CONSTS = (0.0, 2, 0.25, -0.5, 1.0, 0.75)   # a different constant on every side (one of them a Python int)
 
 
 # ---------------------------------------------------------------- reference
